@@ -613,24 +613,28 @@ impl Array {
         if self.dimensions == dimensions {
             self
         } else {
-            let flatten_dimension_count = self.dimensions.len().saturating_sub(dimensions.len());
+            // sum every value into the position it was broadcast from
+            let skipped = self.dimensions.len() - dimensions.len();
+            let mut values = vec![0.0; dimensions.iter().product()];
+            let mut indices = vec![0; self.dimensions.len()];
+            for value in self.values.iter() {
+                let index = dimensions
+                    .iter()
+                    .zip(indices.iter().skip(skipped))
+                    .fold(0, |acc, (d, i)| acc * d + if *d == 1 { 0 } else { *i });
+                values[index] += value;
 
-            let op: SlicedOp = Box::new(move |output_slice, arrays| {
-                let stride = output_slice.len();
-                for (i, output) in output_slice.iter_mut().enumerate() {
-                    *output += arrays[0].iter().skip(i).step_by(stride).sum::<Float>();
+                for (x, d) in indices.iter_mut().zip(&self.dimensions).rev() {
+                    if *x == *d - 1 {
+                        *x = 0;
+                    } else {
+                        *x += 1;
+                        break;
+                    }
                 }
-            });
+            }
 
-            Array::sliced_op(
-                vec![&self],
-                &op,
-                None,
-                &self.dimensions,
-                dimensions,
-                flatten_dimension_count + 1,
-                0,
-            )
+            Array::from((dimensions.to_vec(), values))
         }
     }
 
